@@ -421,6 +421,7 @@ class Session:
 
             def eff():
                 tgt["password"] = pw
+                self.stats["passwd_ok"] += 1
             return "ok", eff
         return "err", None
 
@@ -948,11 +949,11 @@ class Session:
         st = self.settle()
         return st
 
-    def check_idle_baseline(self, st, what="res/idle"):
+    def check_idle_baseline(self, st, what="res/idle", heap=True):
         b = self.baseline
         if st["peers"] != 0:
             self.v(what + "-peers-left", "%d" % st["peers"])
-        if st["heap"] != b["heap"]:
+        if heap and st["heap"] != b["heap"]:
             self.v(what + "-heap-not-at-baseline", "%d vs %d" % (st["heap"], b["heap"]))
         if st["fds"]["stream"] != 0:
             self.v(what + "-stream-descriptors-left", "%r" % st["open_streams"])
